@@ -24,7 +24,7 @@ pub struct Pair {
     pub structured: bool,
     /// how each operand is built from its count: 0 from_parts, 1 from_total_nanoseconds,
     /// 2 from_truncated_nanoseconds (when it fits), 3 an integer multiple of a unit (when it is one), 4 -(-x),
-    /// 5 -(y) with y = -x, 6 (x - p) + p, 7 (x + p) - p
+    /// 5 -(y) with y = -x, 6 (x - p) + p, 7 (x + p) - p, 8 From<std::time::Duration>
     #[serde(default)]
     pub route: (u8, u8),
 }
@@ -60,6 +60,8 @@ fn build(d: &Dur, route: u8) -> Duration {
                 plain
             }
         }
+        // conversion from the standard library's duration (non-negative counts that fit)
+        8 if c >= 0 && c / NS_S <= u64::MAX as i128 => Duration::from(std::time::Duration::new((c / NS_S) as u64, (c % NS_S) as u32)),
         _ => plain,
     }
 }
@@ -90,7 +92,7 @@ fn pair_strategy() -> BS<Pair> {
     let same_count = (prop_oneof![count_any(), (0usize..9, -40_000i128..=40_000).prop_map(|(u, k)| clamp(k * UNIT_NS[u]))], small_delta(1))
         .prop_map(|(c, d)| Pair { a: Dur::of_count(c), b: Dur::of_count(c + d), structured: true, route: (0, 0) })
         .boxed();
-    (wunion(vec![(4, free), (5, structured), (2, zero_x), (3, same_count)]), any::<bool>(), 0u8..8, 0u8..8)
+    (wunion(vec![(4, free), (5, structured), (2, zero_x), (3, same_count)]), any::<bool>(), 0u8..9, 0u8..9)
         .prop_map(|(p, sw, r1, r2)| if sw { Pair { a: p.b, b: p.a, structured: p.structured, route: (r1, r2) } } else { Pair { route: (r1, r2), ..p } })
         .boxed()
 }
@@ -127,6 +129,16 @@ fn pair_oracle(c: &Pair) -> Verdict {
             "== holds between different counts that are not exact negations within one century: {}",
             desc
         );
+    }
+    // the methods Ord provides on top of cmp: clamp between the two operands' extremes, core::cmp::{min, max}
+    {
+        let (lo, hi) = if ca <= cb { (a, b) } else { (b, a) };
+        for x in [a, b, Duration::ZERO, lo + (hi - lo) / 2] {
+            let cx = count(x);
+            let got = lib!(Ord::clamp(x, lo, hi));
+            ensure!(count(got) == cx.clamp(count(lo), count(hi)), "clamp({:?}, {:?}, {:?}) = {:?} (count {}), want count {}", x.to_parts(), lo.to_parts(), hi.to_parts(), got.to_parts(), count(got), cx.clamp(count(lo), count(hi)));
+        }
+        ensure!(count(lib!(std::cmp::max(a, b))) == ca.max(cb) && count(lib!(std::cmp::min(a, b))) == ca.min(cb), "core::cmp::max / min wrong: {}", desc);
     }
     // negative < zero < positive
     let z = Duration::ZERO;
